@@ -53,6 +53,37 @@ def matches(v, k):
             return False
     return True
 
+def features_at(events, line, why):
+    """features of the history up to the violating event, computed from the family's own events: is some formula (by the
+    solver's identity x of the insertFormula hook) asserted twice among the active assertions; are the assertions named in
+    the violation among those"""
+    stack, xs_ok = [[]], True
+    for idx, e in enumerate(events, 1):
+        if idx > line:
+            break
+        if e.get("e") == "Run":
+            stack, xs_ok = [[]], True
+        elif e.get("e") == "Cmd" and e.get("r") == "ok":
+            c = e.get("c")
+            if c == "assert":
+                if "x" not in e:
+                    xs_ok = False
+                stack[-1].append((e.get("nm", ""), e.get("x", -1)))
+            elif c == "push":
+                stack += [[] for _ in range(e.get("n", 1))]
+            elif c == "pop":
+                del stack[max(1, len(stack) - e.get("n", 1)):]
+    if not xs_ok:
+        return {}
+    act = [a for fr in stack for a in fr]
+    xs = [x for _, x in act]
+    dupx = {x for x in xs if xs.count(x) > 1}
+    out = {"dupActive": bool(dupx)}
+    members = why.get("members") if isinstance(why, dict) else None
+    if members is not None:
+        out["memberDup"] = any(x in dupx for n, x in act if n in set(members))
+    return out
+
 def run_jobs(jobs, nproc=14):
     import builders
     out = []
@@ -279,6 +310,10 @@ def main():
         rest = []
         for v in vs:
             v["_texts"] = fr.get("texts", [])
+            feats = features_at(fr.get("events", []), v.get("l", 0), v.get("why"))
+            # without the per-assertion identities fall back to the run-level flag
+            v["dupActive"] = feats.get("dupActive", bool(v.get("dup")))
+            v["memberDup"] = feats.get("memberDup", bool(v.get("dup")))
             hit = next((k for k in known if matches(v, k)), None)
             if hit:
                 known_hits.setdefault(hit["id"], [hit, 0])[1] += 1
